@@ -1385,7 +1385,9 @@ void reb_simulation_rescale_var(struct reb_simulation* const r){
                 }
             }
 
-            if (r->integrator == REB_INTEGRATOR_WHFAST && r->ri_whfast.safe_mode == 0){
+            if (r->integrator == REB_INTEGRATOR_WHFAST){
+                // Also in safe mode: the cached Jacobi coordinates are stale now, and safe_mode
+                // might be switched off before the next step (part1 resets the flag in safe mode).
                 r->ri_whfast.recalculate_coordinates_this_timestep = 1;
             }
         }
